@@ -54,8 +54,15 @@ def build(h, symbols=('BTC-USDT',), timeframes=('1m', '5m'), route_tfs=('5m',)):
     cstate = Obj(None, {'add_candle': Builtin('add_candle', add_candle),
                         'add_multiple_1m_candles': Builtin('add_multiple', rec('add_multiple')),
                         'get_current_candle': Builtin('get_current_candle', lambda i, a, k: Vec([Fraction(0)] * 6))})
+    # read-only observers of the registry: any number of resting orders, any answer (the loops may not depend on it)
+    nobs = []
+
+    def count_active(i, a, k):
+        nobs.append(1)
+        return h.int(f'active_orders_{len(nobs)}', 0)
     orders = Obj(None, {'update_active_orders': Builtin('update_active_orders', rec('update_active_orders')),
-                        'execute_pending_market_orders': Builtin('flush', rec('flush'))})
+                        'execute_pending_market_orders': Builtin('flush', rec('flush')),
+                        'count_active_orders': Builtin('count_active_orders', count_active)})
     store = Obj(None, {'app': app, 'candles': cstate, 'orders': orders}, name='store')
     S.store = store
     routes = []
